@@ -211,26 +211,26 @@ theorem shape_save :
   simp [LarkCache.sourceReaders, Str.startsWith]
 
 open Tranp.Generated in
-/-- The tree cache's identity is made of the grammar's and the source file's full `str(mtime)` (the expressions are pinned
-    verbatim: truncating or dropping one changes the table), in this order … -/
+/-- The tree cache's identity is made of the grammar's full `str(mtime)`, the parser setting (grammar path, start rule,
+    algorithm) and the source file's full `str(mtime)`, in this order (the expressions are pinned verbatim: truncating,
+    dropping or reordering one changes the table) … -/
 theorem shape_identity :
-    LarkCache.treeIdentity.map (·.1) = [['g', 'r', 'a', 'm', 'm', 'a', 'r', '_', 'm', 't', 'i', 'm', 'e'], ['m', 't', 'i', 'm', 'e']]
-    ∧ LarkCache.treeIdentity.map (·.2) = ["str(self.__datums.mtime(self.__setting.grammar))".toList, "str(self.__sources.mtime(source_path))".toList]
+    LarkCache.treeIdentity.map (·.1) = ["grammar_mtime".toList, "grammar".toList, "start".toList, "algorithem".toList, "mtime".toList]
+    ∧ LarkCache.treeIdentity.map (·.2) = ["str(self.__datums.mtime(self.__setting.grammar))".toList, "self.__setting.grammar".toList,
+        "self.__setting.start".toList, "self.__setting.algorithem".toList, "str(self.__sources.mtime(source_path))".toList]
     ∧ LarkCache.parserIdentity.map (·.1) = [['m', 't', 'i', 'm', 'e'], ['g', 'r', 'a', 'm', 'm', 'a', 'r'], ['s', 't', 'a', 'r', 't'], ['a', 'l', 'g', 'o', 'r', 'i', 't', 'h', 'e', 'm']] := by
-  refine ⟨by decide, ?_, by decide⟩
-  simp [LarkCache.treeIdentity]
+  refine ⟨?_, ?_, by decide⟩ <;> simp [LarkCache.treeIdentity]
 
-/-- … and the text `Cached.identifier` hashes (`str(identity)`) determines both values: two runs share a tree-cache file name
-    only if the grammar's and the source's mtime strings agree (up to collisions of md5, which is not modelled). -/
-theorem identity_injective (g m g' m' : Str) (hg : Shape.Plain g) (hm : Shape.Plain m) (hg' : Shape.Plain g') (hm' : Shape.Plain m')
-    (h : Shape.pyStrDict (Shape.treeIdentityOf [g, m]) = Shape.pyStrDict (Shape.treeIdentityOf [g', m'])) : g = g' ∧ m = m' := by
-  have hk : (Generated.LarkCache.treeIdentity.map (·.1)).length = 2 := by decide
-  have := Shape.pyStrDict_injective _ [g, m] [g', m'] (by simp [hk]) (by simp [hk])
-    (by intro v hv; simp at hv; rcases hv with rfl | rfl <;> assumption)
-    (by intro v hv; simp at hv; rcases hv with rfl | rfl <;> assumption) h
-  simp at this
-  exact this
+/-- … and the text `Cached.identifier` hashes (`str(identity)`) determines every component: two runs share a tree-cache file
+    name only if the grammar's mtime string, the grammar path, the start rule, the algorithm and the source's mtime string all
+    agree — for plain components (printable ASCII without quote and backslash, where Python's `repr` is the text between single
+    quotes; other strings are outside the model) and up to collisions of md5, which is not modelled. -/
+theorem identity_injective (vs ws : List Str) (hl : vs.length = Generated.LarkCache.treeIdentity.length)
+    (hl' : ws.length = Generated.LarkCache.treeIdentity.length) (hv : ∀ v ∈ vs, Shape.Plain v) (hw : ∀ w ∈ ws, Shape.Plain w)
+    (h : Shape.pyStrDict (Shape.treeIdentityOf vs) = Shape.pyStrDict (Shape.treeIdentityOf ws)) : vs = ws :=
+  Shape.pyStrDict_injective _ vs ws (by simpa using hl) (by simpa using hl') hv hw h
 
-example : Shape.Plain ['1', '7', '.', '2', '5'] := by simp [Shape.Plain]
+example : Shape.Plain "data/grammar.lark".toList ∧ Shape.Plain ['1', '7', '.', '2', '5'] ∧ Generated.LarkCache.treeIdentity.length = 5 := by
+  refine ⟨?_, ?_, by decide⟩ <;> simp [Shape.Plain]
 
 end Tranp.C15
